@@ -8,6 +8,7 @@ import CookModel.Lemmas.DiagInsideTimer
 import CookModel.Lemmas.DiagQuiet
 import CookModel.Lemmas.DiagAnalysisMore
 import CookModel.Lemmas.DiagInterRef
+import CookModel.Lemmas.DiagRefChecks
 /-
   C07  Diagnostics are sound, complete and placed on the offending construct.
 
@@ -723,6 +724,40 @@ theorem C07_inter_ref_conflicting_modifiers (i : PIngredient α) (igr : Ingredie
 
 /-! non-vacuity: `&?` against a definition without modifiers conflicts in the `?` bit -/
 example : refConflictBits ⟨Modifiers.REF ||| Modifiers.OPT⟩ ⟨0⟩ = Modifiers.OPT := by decide
+
+/-- **The checks of a resolved ingredient reference against its definition** (`ingrRefChecks`: what
+    `ingredient` runs when `resolve_reference` found the definition).  They only append diagnostics, and
+    * a note on the reference ⇒ `note-in-reference` (error, analysis) is among them, labelled with the
+      note's span widened over its parentheses and the definition's note (or the position after the
+      definition) — this closes the gap of `C07_note_in_reference_partial` for ingredients;
+    * **a quantity on a reference whose definition has one** (definition not made inside a step) ⇒
+      `conflicting-ref-quantity` (error, analysis) labelled with the reference's quantity and the definition;
+    * **text value against numeric value** ⇒ the warning `text-value-in-ref`, the text side's span first. -/
+theorem C07_reference_checks (env : Env) (input : Str) (li : Loc (PIngredient α))
+    (igr : Ingredient (ScalableValue α)) (refTo : Nat) (defn : Ingredient (ScalableValue α))
+    (defLoc : Loc (PIngredient α)) (s : Col α) :
+    (∃ l, (ingrRefChecks env input li igr refTo defn defLoc s).2.diags.toList = s.diags.toList ++ l) ∧
+    (∀ n, li.val.note = some n →
+      (⟨.error, .analysis, "note-in-reference", [noteRefSpan input n.span,
+        (defLoc.val.note.map (·.span)).getD (Span.pos defLoc.span.stop)]⟩ : Diag) ∈
+        (ingrRefChecks env input li igr refTo defn defLoc s).2.diags.toList) ∧
+    (defn.quantity.isSome = true → igr.quantity.isSome = true → ircDefinedInStep defn = false →
+      (⟨.error, .analysis, "conflicting-ref-quantity",
+        [(li.val.quantity.map (·.span)).getD ⟨0, 0⟩, defLoc.span]⟩ : Diag) ∈
+        (ingrRefChecks env input li igr refTo defn defLoc s).2.diags.toList) ∧
+    (∀ rq dq, igr.quantity = some rq → defn.quantity = some dq →
+      rq.value.val.isText ≠ dq.value.val.isText →
+      (⟨.warning, .analysis, "text-value-in-ref",
+        if rq.value.val.isText then
+          [(li.val.quantity.map (·.span)).getD ⟨0, 0⟩, (defLoc.val.quantity.map (·.span)).getD ⟨0, 0⟩]
+        else [(defLoc.val.quantity.map (·.span)).getD ⟨0, 0⟩, (li.val.quantity.map (·.span)).getD ⟨0, 0⟩]⟩ : Diag) ∈
+        (ingrRefChecks env input li igr refTo defn defLoc s).2.diags.toList) := by
+  obtain ⟨h1, h2, h3⟩ := ingrRefChecks_reports env input li igr refTo defn defLoc s
+  exact ⟨h1, h2, h3, fun rq dq hr hd hne => ingrRefChecks_text env input li igr refTo defn defLoc s rq dq hr hd hne⟩
+
+/-! non-vacuity: a definition made outside a step -/
+example : ircDefinedInStep (⟨[], none, none, none, none, ⟨.definition [] false, none⟩, Modifiers.empty⟩ :
+    Ingredient (ScalableValue Rat)) = false := rfl
 
 /-! ### Soundness, simplest shape -/
 
